@@ -23,9 +23,14 @@ def run(rep: Report, repo: Repo):
     rep.trusted = ['delays >= 0 and induction over ops give the static-timing window from the provenance rule',
                    'exact commutation holds on a dyadic grid without float over/underflow (assumption of the property)']
     rep.assumptions = ['NOT DECIDED: strict monotonicity of timestamps under polarity-independent delays (depends on pulse-filter arithmetic on concrete floats); tightness of the window']
-    K = Kernel(repo)
-    provenance(rep, K)
-    typing(rep, K)
+    from checks import kernel_eval
+    ke = kernel_eval.decide(rep, repo, 'C04', ('cause', 'shift', 'monotone'))
+
+    def structural():
+        K = Kernel(repo)
+        provenance(rep, K)
+        typing(rep, K)
+    kernel_eval.with_fallback(rep, ke, 'C04', structural)
     capture_times(rep, repo)
 
 
@@ -340,6 +345,9 @@ def typing(rep, K):
 
 def capture_times(rep, repo):
     rep.rule('C04.capture', 'capture: earliest arrival = min and latest stabilisation = max over entries with TMIN < t < TMAX only')
+    from checks import capture_eval
+    if capture_eval.decide(rep, repo, 'C04.capture', (4, 5)):
+        return          # decided by evaluating both c_to_s implementations on a family of waveforms
     mod, loops = c03.capture_loops(repo)
     for side, f, loop, lb in loops:
         for var, fn in (('eat', 'min'), ('lst', 'max')):
@@ -361,13 +369,9 @@ def depends(rep, repo):
     provide and is computed with the delay slice the dataset selection (C06.dataset) picks: a change that breaks those
     mechanisms puts another signal's transitions, or another dataset's delays, into a waveform. Rule ids keep their prefix."""
     from checks import c03, c06, c07, c08
-    K = Kernel(repo)
     # every edge time is produced by the merge loop of _wave_eval: its kernel rules (initial value, toggle parity, waveform bounds,
     # agreement of the four operand arms) are part of this check (rule ids keep their C03. prefix)
-    c03.initial_value(rep, K)
-    c03.parity(rep, K)
-    c03.bounds(rep, K)
-    c03.siblings(rep, K)
+    c03.kernel_rules(rep, repo)
     c03.stimulus_table(rep, repo, rid='C03.stimulus')     # the input transition times reach the kernel unchanged (s[1] -> waveform entry)
     c07.schedule_rules(rep, repo)
     c08.map_rules(rep, repo)
